@@ -58,7 +58,7 @@ PROPS["C03"] = dict(
          "to obey every rule (requiring/excluding arguments placed in the documented order) and are confirmed by the model before "
          "use. Oracle: no exception, destinations == model. Non-trivial = a check/format/cardinality/constraint is active for a "
          "used argument and >= 2 arguments are used; distinct by hash of (configuration, argv).",
-    require_classes=dict(all=["attr.check", "attr.format", "attr.format_per_position", "attr.cardinality", "attr.arg_constraint", "attr.mandatory",
+    require_classes=dict(all=["attr.check", "attr.format", "attr.format_per_position", "attr.cardinality", "attr.arg_constraint", "attr.constraint_names_short_key", "attr.constraint_names_long_key", "attr.constraint_key_list", "attr.mandatory",
                               "attr.optional_value", "hc.all_of", "hc.any_of", "hc.one_of", "hc.differ", "hc.disjoint",
                               "flag.no_abbr", "evaluated_variants"]),
     assumptions=DOMAIN_ASSUMPTIONS,
@@ -83,7 +83,7 @@ PROPS["C02"] = dict(
          "deprecated argument), kept only if the model confirms that the result breaks a rule; then spelled with the full "
          "spelling function. Oracle: evaluation ends in an exception derived from std::exception. Every case is non-trivial by "
          "construction; distinct by hash of (mutation, configuration, argv).",
-    require_classes=dict(all=["mutation." + m for m in MUTATIONS]),
+    require_classes=dict(all=["mutation." + m for m in MUTATIONS] + ["attr.constraint_names_short_key", "attr.constraint_names_long_key", "attr.constraint_key_list"]),
     assumptions=DOMAIN_ASSUMPTIONS + ["'!' before an argument that does not allow inversion is not in the catalogue (the statement lists no such rule)",
                                       "file-system checks are not generated"],
 )
